@@ -203,6 +203,8 @@ class Builder:
         self.notes = []
         self.call_sites = 0
         self.inlined = set()
+        self.assign_log = []  # (FuncInfo, ast.Name target, Node) for every plain-name assignment
+        self.opaque = {}      # function fullname -> symbol name (result is a named dimensionless constant)
 
     # -- node construction ---------------------------------------------
     def mk(self, kind, val=None, args=(), kw=None, at=None):
@@ -853,6 +855,8 @@ class Builder:
         key = clo.func or node
         if key in self.stack or len(self.stack) >= self.max_depth:
             return self.unknown('recursion/depth at %s' % getattr(node, 'name', 'lambda'), at)
+        if clo.func is not None and clo.func.fullname in self.opaque:
+            return self.mk('param', self.opaque[clo.func.fullname], at=at)
         if clo.func is not None:
             self.inlined.add(clo.func.fullname)
         a = node.args
@@ -1016,6 +1020,7 @@ class Builder:
     def assign(self, t, v, rebinding=False):
         if isinstance(t, ast.Name):
             f = self.frame
+            self.assign_log.append((f.func, t, v))
             if t.id in f.globals_decl:
                 self.gvars[(f.module.name, t.id)] = v
             else:
